@@ -100,6 +100,10 @@ class Module:
                                 if a.name in cs:
                                     imp_l[a.asname or a.name] = cs[a.name]
             self.inlined += expand_literal_constants(self.tree, lit_consts.get(name, {}), imp_l)
+        if "for (" in source or "for " in source and " break" in source:
+            from .inline import unroll_dispatch_tables
+
+            self.inlined += unroll_dispatch_tables(self.tree)
         if normalise is not None:
             from .inline import normalise as _normalise
 
